@@ -47,7 +47,7 @@ func TestVerifC01(t *testing.T) {
 func TestVerifC02(t *testing.T) {
 	k := Knobs{Name: "C02", Units: 110, RangeKeys: true, Iters: true, Limits: true, Masking: true, Snapshots: true, Maint: true, Ingest: true,
 		IterBurst: 60, AuditEvery: 25, NoAutoCompactionsPct: 15}
-	runDeck(t, "C02", "main", k, 200, 4000,
+	runDeck(t, "C02", "main", k, 800, 6000,
 		"Histories as in C01 interleaved with bursts of 60 random positioning ops (SeekGE/LT, SeekPrefixGE, First/Last, Next/Prev, NextPrefix, "+
 			"*WithLimit, SetBounds, SetOptions) on fresh iterators with random bounds, key types and masking; each op's result is compared with the "+
 			"model's cursor over the materialised position list; limit ops are checked against the documented set of legal outcomes.", nil)
@@ -76,7 +76,7 @@ func TestVerifC05(t *testing.T) {
 func TestVerifC08(t *testing.T) {
 	k := Knobs{Name: "C08", Units: 110, RangeKeys: true, Iters: true, Batches: true, Maint: true, Ingest: true, Excise: true, Limits: true,
 		IterBurst: 40, AuditEvery: 8, NoAutoCompactionsPct: 15}
-	runDeck(t, "C08", "main", k, 250, 5000,
+	runDeck(t, "C08", "main", k, 1500, 8000,
 		"Range-key-heavy histories (overlapping RangeKeySet/Unset/Delete with several suffixes, identical values on adjacent fragments, in batches "+
 			"and ingested tables, flushed into different levels, excised); iterators in ranges-only and combined mode with bounds cutting spans, "+
 			"seeks inside spans and prefix seeks; every position's HasPointAndRange, RangeBounds and RangeKeys is compared with the model's "+
@@ -87,7 +87,7 @@ func TestVerifC08(t *testing.T) {
 func TestVerifC09(t *testing.T) {
 	k := Knobs{Name: "C09", Units: 100, RangeKeys: true, Iters: true, Masking: true, Maint: true, IterBurst: 40, AuditEvery: 20,
 		MaskFilterDiff: true, NoAutoCompactionsPct: 15}
-	runDeck(t, "C09", "main", k, 200, 4000,
+	runDeck(t, "C09", "main", k, 1500, 8000,
 		"C08 decks with points at every suffix under/over the range keys; combined iterators with RangeKeyMasking.Suffix drawn from all suffixes; "+
 			"each masked scan is compared with the model's masking rule and run twice, with and without the block-property filter mask.", nil)
 }
